@@ -431,6 +431,12 @@ def run_c13(w: World, rep: Report):
         for wn in PAIRS.get(lock, []):
             t1_pair(w, rep, 'C13.T1', lock, wn)
     c03_builders(w, rep, rule='C13.T1')
+    from .report import depend
+    depend(rep, w, 'rules_c02', ('C02.R2', 'C02.R3', 'C02.R5'), 'C13.TD2',
+           'the signature instruction the locks rely on enforces the allowed-flags operand per bit, uses the one '
+           'message builder and maps the verification result correctly (C02.R2/R3/R5)', floor=10)
+    depend(rep, w, 'rules_c03', ('C03.R1', 'C03.R2'), 'C13.TD3',
+           'the multisig instruction the multisig lock relies on consumes matched keys and requires all m (C03.R1/R2)', floor=4)
     rep.explanation = (
         'Necessary structural conditions for "exactly the intended holder can unlock", decided on the templates '
         'embedded in tools.py by a stack-effect and integrity type system (completeness side: the lock is '
@@ -454,6 +460,9 @@ def run_c14(w: World, rep: Report):
     rep.rule('C14.T6', 'every builder parameter is used', floor=4)
     rep.rule('C14.T7', 'split offsets of the lock agree with the Certificate layout (32 / 36 / 40 / 41)', floor=2)
     t0_model(w, rep, 'C14.T0')
+    rep.rule('C14.TV', 'the time instruction the certificate window relies on has its documented decision table', floor=1)
+    from .rules_c16 import timestamp_table
+    timestamp_table(w, rep, 'C14.TV')
     cx = Ctx.of(w)
     for lock in C14_LOCKS:
         rep.covered('builders', lock)
@@ -491,6 +500,10 @@ def run_c14(w: World, rep: Report):
                               why='' if ok else 'further delegation is decided by a value the certificate does not authenticate')
         _split_layout(w, rep, cx, lock)
     t1_pair(w, rep, 'C14.T1', 'make_delegate_key_lock', 'make_delegate_key_witness')
+    from .report import depend
+    depend(rep, w, 'rules_c02', ('C02.R2', 'C02.R3', 'C02.R4', 'C02.R5'), 'C14.TD2',
+           'the signature instructions the delegation locks rely on (allowed flags per bit, one message builder, length '
+           'guards, result mapping - C02.R2-R5)', floor=10)
     rep.explanation = (
         'Necessary structural conditions of the delegation locks, decided by typing their templates: every '
         'certificate slice that decides something (delegate key, begin, end, may-delegate) descends from the '
@@ -539,6 +552,10 @@ def run_c15(w: World, rep: Report):
     rep.rule('C15.T8', 'hash-lock idiom: the claim arm is taken exactly on equality of the hash of the supplied '
              'preimage with the template digest, with the digest size of the builder', floor=4)
     t0_model(w, rep, 'C15.T0')
+    rep.rule('C15.TV', 'the time instruction the refund path relies on has its documented decision table '
+             '(t >= c and within slack)', floor=1)
+    from .rules_c16 import timestamp_table
+    timestamp_table(w, rep, 'C15.TV')
     cx = Ctx.of(w)
     for lock in C15_LOCKS:
         rep.covered('builders', lock)
@@ -550,6 +567,10 @@ def run_c15(w: World, rep: Report):
             t1_pair(w, rep, 'C15.T1', lock, wn)
         if 'htlc' in lock:
             _hash_lock(w, rep, cx, lock)
+    from .report import depend
+    depend(rep, w, 'rules_c02', ('C02.R2', 'C02.R3', 'C02.R4', 'C02.R5'), 'C15.TD2',
+           'the signature instruction both paths end in (allowed flags per bit, one message builder, length guards, '
+           'result mapping - C02.R2-R5)', floor=10)
     rep.explanation = (
         'Necessary structural conditions of the hash/point time-locked contracts, decided on their templates: '
         'stack compatibility with the builder-made witnesses, trusted or commitment-authenticated keys, the '
